@@ -58,6 +58,12 @@ func genC11(t *rapid.T) c11Case {
 	if c.Phase >= 4 && rapid.IntRange(0, 7).Draw(t, "secondChannel") == 0 {
 		c.Ending = "second-channel"
 	}
+	if rapid.IntRange(0, 7).Draw(t, "dropDuringDial") == 0 {
+		// the client sends CHANNEL_CREATE and drops (reset or close) without waiting for the answer: the gateway is
+		// checking the host or dialing at that moment
+		c.Phase, c.InFlight, c.DupIn = 3, "none", false
+		c.Ending = rapid.SampledFrom([]string{"channel-create-then-rst", "channel-create-then-fin"}).Draw(t, "dialEnding")
+	}
 	if c.Kind == "ws" && c.Phase >= 4 && rapid.IntRange(0, 5).Draw(t, "stalled") == 0 {
 		// endings that need no response from the gateway (a response could not be written to a client that
 		// does not read; that combination is not explored, see DESIGN.md)
@@ -218,6 +224,26 @@ func runC11(c c11Case) *Violation {
 			}
 		case "last-chunk":
 			conn.(*gwc.Legacy).SendRawIn([]byte("0\r\n\r\n"))
+		case "channel-create-then-rst", "channel-create-then-fin":
+			u2, _ := render(histCfg{Opts: o, Kind: c.Kind}, []PktSpec{{K: "cc", Host: "A"}}, "127.0.0.1")
+			rst := c.Ending == "channel-create-then-rst"
+			switch cc := conn.(type) {
+			case *gwc.WS:
+				cc.Send(u2[0])
+				if rst {
+					cc.Reset()
+				} else {
+					cc.Close()
+				}
+				clientClosedAll = true
+			case *gwc.Legacy:
+				cc.Pipeline = true
+				cc.Send(u2[0])
+				cc.CloseOut(rst) // the answer would go to this connection
+				cc.CloseIn(rst)
+				clientClosedAll = true
+			}
+			w.L["A"].WaitAccept(snap["A"]+1, 500*time.Millisecond)
 		case "second-channel":
 			// a further CHANNEL_CREATE on a tunnel that has its channel; whatever the gateway makes of it (it is out
 			// of order), the client then drops - every host connection made for this tunnel must be released
@@ -345,6 +371,9 @@ func TestC11_BIN(t *testing.T) {
 		c.Stalled, c.DupIn = false, false
 		if strings.HasSuffix(c.Ending, "-out") {
 			c.Ending = "fin" // the open finding about dropped RDG_OUT_DATA connections is probed in-process
+		}
+		if strings.HasPrefix(c.Ending, "channel-create-then") {
+			c.Ending = "rst" // probed in-process
 		}
 		return c
 	}, func(c c11Case) (bool, []string) {
